@@ -271,6 +271,8 @@ func (s *sharedEntryAttributes) FilterChilds(keys map[string]string) ([]Entry, e
 	sort.Strings(schemaKeys)
 	// iterate through the keys, resolving the key levels
 	for _, key := range schemaKeys {
+		// every key level starts with an empty result, only the matches of the last key level are returned
+		result = []Entry{}
 		keyVal, exist := keys[key]
 		// if the key exists in the input map meaning has a filter value
 		// associated, the childs map is filtered for that value
@@ -287,7 +289,6 @@ func (s *sharedEntryAttributes) FilterChilds(keys map[string]string) ([]Entry, e
 			}
 		} else {
 			// this is basically the wildcard case, so go through all childs and add them
-			result = []Entry{}
 			for _, entry := range processEntries {
 				childs := entry.getChildren()
 				for _, v := range childs {
